@@ -2,11 +2,18 @@
 From TV Require Import Base.Prelude Storage.Locks Storage.LocksProofs.
 Local Open Scope N_scope.
 
-(* For every lifecycle of any length over any number of Index handles (outside F7: a rollback whose
-   writer rebuild fails), at every point: at most one writer is alive, every live writer owns the
-   lock guard, and the lock is held exactly when a writer is alive. *)
-Theorem C18_mutual_exclusion : forall ops, f7_class ops = false -> forall s, linv s -> linv (fst (lrun s ops)).
+(* For every lifecycle of any length over any number of Index handles -- including rollbacks whose
+   writer rebuild fails and failed constructions -- at every point: at most one writer is alive,
+   every live writer owns the lock guard, and the lock is held exactly when a writer is alive.
+   (`lrun` follows the statement order of IndexWriter::rollback pinned from the source; with the
+   pre-fix order the theorem below fails to compile and C18_old_rollback_order_refuted is the witness.) *)
+Theorem C18_mutual_exclusion : forall ops s, linv s -> linv (fst (lrun s ops)).
 Proof. exact mutual_exclusion. Qed.
+
+(* whatever the order in the source: every lifecycle without a failing rebuild keeps the invariant *)
+Theorem C18_mutual_exclusion_any_order : forall safe ops, (safe = true \/ f7_class ops = false) ->
+  forall s, linv s -> linv (fst (lrun_gen safe s ops)).
+Proof. exact mutual_exclusion_gen. Qed.
 
 Theorem C18_invariant_holds_initially : linv linit.
 Proof. exact linv_init. Qed.
@@ -41,16 +48,17 @@ Theorem C18_rollback_keeps_lock : forall s w w' valid ok,
 Proof. exact rollback_keeps_lock. Qed.
 
 (* the guard mechanism implements the one-line specification "who is the writer" *)
-Theorem C18_model_refines_spec : forall ops, f7_class ops = false -> forall s, linv s ->
-  snd (lrun s ops) = spec_run (abs s) ops.
+Theorem C18_model_refines_spec : forall ops s, linv s -> snd (lrun s ops) = spec_run (abs s) ops.
 Proof. exact model_refines_spec. Qed.
 
-(* F7 (genuine, needs an I/O error inside rollback): the rebuilt writer fails, the guard is
-   dropped, the old writer object survives without a lock and a second writer can be created *)
-Theorem C18_mutual_exclusion_refuted :
+(* F7 (fixed in /repo): with the old statement order of rollback (guard taken out of self before the
+   fallible rebuild) a failing rebuild dropped the guard: the old writer survived without a lock
+   and a second writer could be created; with the current order the second Create is refused. *)
+Theorem C18_old_rollback_order_refuted :
   f7_class f7_witness = true /\
-  writers (fst (lrun linit f7_witness)) = [(2, true); (1, false)] /\
-  snd (lrun linit f7_witness) = [ROk; RIoErr; ROk].
+  writers (fst (lrun_gen false linit f7_witness)) = [(2, true); (1, false)] /\
+  snd (lrun_gen false linit f7_witness) = [ROk; RIoErr; ROk] /\
+  snd (lrun_gen true linit f7_witness) = [ROk; RIoErr; RLockBusy].
 Proof. exact f7_refuted. Qed.
 
 Example nonvacuous_lifecycle :
